@@ -32,11 +32,23 @@ def _leaf(tc):
 
 def _canon(x):
     """Canonical JSON for drift comparison (sets arrive as sorted lists)."""
+    if isinstance(x, dict) and x.get("o") == "pjoin":
+        # model form (common, res) and real form (min, max) of a partial join
+        common = x["common"] if "common" in x else x["min"]
+        res = x["res"] if "res" in x else (x["hasmax"] and sorted(x["max"]) == sorted(x["min"]))
+        return {"o": "pjoin", "fixed": json.dumps(x["fixed"], sort_keys=True), "p": _canon(x["p"]), "common": sorted(common), "res": bool(res), "lhs": bool(x["lhs"])}
     if isinstance(x, dict):
         return {k: (sorted(v) if k in ("cols", "common") and isinstance(v, list) else _canon(v)) for k, v in x.items()}
     if isinstance(x, list):
         return [_canon(v) for v in x]
     return x
+
+
+def _with_fixed_meta(o: dict, model_new: dict) -> dict:
+    """A projected real partial join names its fixed operand by leaf id only; TLC needs the leaf's columns."""
+    if o.get("o") == "pjoin" and model_new.get("o") == "pjoin":
+        o = dict(o, fixed=model_new["fixed"])     # observe() has checked that the fixed operand is the same object
+    return o
 
 
 def observe(st: dict) -> dict:
@@ -51,8 +63,10 @@ def observe(st: dict) -> dict:
         cur_rel = UnaryOperationRelation(operation=cur, target=leaf, columns=cur.applied_columns(leaf))
         try:
             k = new.commute(cur_rel)
-            ev["first"] = {"o": "none"} if k.first is None else project.unary_op(k.first)
-            ev["second"] = project.unary_op(k.second)
+            if st["new"].get("o") == "pjoin" and k.first is not None and getattr(k.first, "fixed", None) is not new.fixed:
+                raise AssertionError("the reported first operation is a partial join with a DIFFERENT fixed operand")
+            ev["first"] = {"o": "none"} if k.first is None else _with_fixed_meta(project.unary_op(k.first), st["new"])
+            ev["second"] = _with_fixed_meta(project.unary_op(k.second), st["new"])
             ev["done"] = bool(k.done)
         except Exception as exc:  # noqa: BLE001
             ev["err"] = type(exc).__name__
@@ -141,12 +155,14 @@ COMPANIONS = [
     ("PairsKF2.cfg", "KF2StillViolates", "F2", "Projection.commute past Deduplication (open)"),
     ("PairsKF6.cfg", "MergeSound", "F6", "Slice.then without clamping raises ValueError (fixed in the code)"),
     ("PairsKF10.cfg", "CommuteSound", "F10", "Sort.commute past Sort (fixed in the code)"),
+    ("PairsKF20.cfg", "CommuteSound", "F20", "PartialJoin.commute past a Projection that hides a column the fixed operand also has (fixed in the code)"),
+    ("PairsKF21.cfg", "CommuteSound", "F21", "Calculation.commute past a Projection that dropped a column with the same tag (fixed in the code)"),
 ]
 
 
 def run(tier: str, seed: int) -> list[Part]:
     parts = []
-    for cfg in ["PairsGeneral.cfg", "PairsSlices.cfg", "PairsSorts.cfg"] + (["PairsGeneral2.cfg"] if tier == "thorough" else []):
+    for cfg in ["PairsGeneral.cfg", "PairsSlices.cfg", "PairsSorts.cfg", "PairsJoins.cfg"] + (["PairsGeneral2.cfg"] if tier == "thorough" else []):
         t0 = time.time()
         res = run_tlc("MC_Pairs.tla", cfg)
         if res.violated:
